@@ -72,11 +72,17 @@ def run_harness(args, stdin_obj=None, timeout=1800, race=False, env_extra=None, 
     if env_extra:
         env.update(env_extra)
     inp = json.dumps(stdin_obj) if stdin_obj is not None else None
-    try:
-        p = subprocess.run([exe] + list(args), input=inp, capture_output=True, text=True,
-                           timeout=timeout, env=env, cwd=cwd)
-    except subprocess.TimeoutExpired:
-        raise Inconclusive('harness timeout: %s' % ' '.join(args))
+    for attempt in range(3):
+        try:
+            p = subprocess.run([exe] + list(args), input=inp, capture_output=True, text=True,
+                               timeout=timeout, env=env, cwd=cwd)
+        except subprocess.TimeoutExpired:
+            raise Inconclusive('harness timeout: %s' % ' '.join(args))
+        if p.returncode != 3:
+            break
+        # exit status 3 = the harness's own watchdog: a work item made no progress (seen once: all workers parked in
+        # runtime.GC() called by SendOnce, a stall of the Go runtime, not of Lightning Stream) - run it again
+        sys.stderr.write('[harness] watchdog exit (attempt %d): %s\n%s\n' % (attempt + 1, ' '.join(args), p.stderr[:1500]))
     if p.returncode != 0:
         sys.stderr.write(p.stderr[:3000] + '\n...\n' + p.stderr[-3000:] if len(p.stderr) > 6000 else p.stderr)
         raise Inconclusive('harness exit %d: %s' % (p.returncode, ' '.join(args)))
